@@ -224,7 +224,7 @@ SetKeyFails(e, side) ==
   LET key == ItemAt(rings, e.ring, e.key) IN
   (IF On("C02") THEN F((AdmitDefined(e.alg, key) /\ ~Admit(side, e.alg, key)) => e.ret # 0, "C02.setkey") ELSE {})
   \cup (IF On("C10") /\ side = "builder" THEN F((key.id # -1 /\ key.kd.priv = 0) => e.ret # 0, "C10.pubkey") ELSE {})
-  \cup (IF Prop = "FULL" THEN F(AdmitDefined(e.alg, key) => (Admit(side, e.alg, key) <=> e.ret = 0), "FULL.setkey") ELSE {})
+  \cup (IF Prop = "FULL" THEN F((AdmitDefined(e.alg, key) /\ (key.id = -1 \/ key.err = 0)) => (Admit(side, e.alg, key) <=> e.ret = 0), "FULL.setkey") ELSE {})
 
 ConfigFails(e) ==
   CASE e.e = "CSetKey" -> SetKeyFails(e, "checker")
